@@ -327,11 +327,23 @@ assertFeasible() const {
     for_each(ts.begin(),ts.end(),mem_fn(&TopologyConstraint::assertFeasible));
     return true;
 }
+#ifdef ADAPTAGRAMS_VERIF
+// Verification hook (off by default): records which stage of solve() is
+// executing, so that a failing invariant check can be attributed to the
+// entry state, the move, or the split/merge that follows it.
+int verif_topology_phase = 0;
+#endif
 bool TopologyConstraints::solve() {
     FILE_LOG(logDEBUG)<<"TopologyConstraints::solve... dim="<<dim;
+#ifdef ADAPTAGRAMS_VERIF
+    verif_topology_phase = 1;   // entry checks
+#endif
     COLA_ASSERT(assertConvexBends(edges));
     COLA_ASSERT(assertNoSegmentRectIntersection(nodes,edges));
     COLA_ASSERT(assertFeasible());
+#ifdef ADAPTAGRAMS_VERIF
+    verif_topology_phase = 2;   // projection and move
+#endif
     vector<TopologyConstraint*> ts;
     constraints(ts);
     vpsc::IncSolver s(vs,cs);
@@ -370,11 +382,17 @@ bool TopologyConstraints::solve() {
     // rectangle and edge point positions updated to variables.
     FILE_LOG(logDEBUG)<<" moves done.";
     if(minTAlpha<1 && minT) {
+#ifdef ADAPTAGRAMS_VERIF
+        verif_topology_phase = 3;   // split or merge of the limiting segment
+#endif
         // now we satisfy the violated topology constraint, i.e. a bend point
         // that has become straight is removed or a segment that needs to bend
         // is split
         minT->satisfy();
     }
+#ifdef ADAPTAGRAMS_VERIF
+    verif_topology_phase += 10;   // exit checks (12: after move only, 13: after split/merge)
+#endif
     //printEdges(edges);
     COLA_ASSERT(assertFeasible());
     COLA_ASSERT(assertConvexBends(edges));
